@@ -356,7 +356,7 @@ class ProfileEngine:
                 seq.append(rng.choice(["nonexistent_label_xyz",
                                        "/no/such/dir", "@incomplete",
                                        "@incomplete"]))
-            seq.append(rng.choice(["zef18", "@copy"]))
+            seq.append(rng.choice(["zef18", "@copy", "@hash"]))
             s["training_set"] = seq
         if rng.random() < 0.5:
             s["regressor"] = rng.randint(1, 7)
@@ -404,6 +404,12 @@ class ProfileEngine:
                 ops.append({"op": "legacy", "numeric": rng.random() < 0.5})
             else:
                 ops.append({"op": "setup", "script": self.gen_script(rng)})
+                if "@hash" in ops[-1]["script"].get("training_set", []) \
+                        and rng.random() < 0.7:
+                    # the profile is then kept in the old text format
+                    ops.append({"op": "legacy",
+                                "numeric": rng.random() < 0.5})
+                    ops.append({"op": "get", "key": "rating training set"})
         for op in ops:
             if op["op"] in ("set", "get", "get_fit_params", "restart",
                             "set_bad"):
@@ -716,6 +722,14 @@ class ProfileEngine:
             if a == "@copy":
                 from nanite.rate.rater import IndentationRater
                 d = scratch / "ts_user"
+                if not d.exists():
+                    shutil.copytree(
+                        IndentationRater.get_training_set_path("zef18"), d)
+                a = str(d)
+            elif a == "@hash":
+                # a user directory with '#' and '=' in its name
+                from nanite.rate.rater import IndentationRater
+                d = scratch / "ts_run#2 k=3"
                 if not d.exists():
                     shutil.copytree(
                         IndentationRater.get_training_set_path("zef18"), d)
